@@ -110,11 +110,13 @@ Qed.
     (MissingExtensionError) unless make_empty.  [parse] stands for json.loads. *)
 Theorem C10_gate :
   (forall (parse : str -> res jv) s c,
-     from_json parse s = Ok c -> parse s = Ok c /\ check_valid c = Ok tt) /\
-  (forall c c', from_runtime_repr c = Ok c' -> c' = c /\ check_valid c = Ok tt) /\
+     from_json parse s = Ok c ->
+     parse s = Ok c /\ check_valid c = Ok tt /\ (wf_domain c = true -> valid_spec c = true)) /\
+  (forall c c', from_runtime_repr c = Ok c' ->
+     c' = c /\ check_valid c = Ok tt /\ (wf_domain c = true -> valid_spec c = true)) /\
   (forall exts make_empty empty i c,
      wrapper_init exts make_empty empty = Ok (i, c) ->
-     check_valid c = Ok tt /\
+     check_valid c = Ok tt /\ (wf_domain c = true -> valid_spec c = true) /\
      match i with
      | Some n => nth_error exts n = Some (dcm_meta_ecode, c)
      | None => make_empty = true /\ c = empty
